@@ -48,6 +48,7 @@ import (
 	"github.com/yandex/pandora/components/providers/grpc/grpcjson"
 	httpprov "github.com/yandex/pandora/components/providers/http"
 	httpconf "github.com/yandex/pandora/components/providers/http/config"
+	httpprovider "github.com/yandex/pandora/components/providers/http/provider"
 	"github.com/yandex/pandora/components/providers/http/decoders"
 	"github.com/yandex/pandora/components/providers/scenario"
 	scngrpc "github.com/yandex/pandora/components/providers/scenario/grpc"
@@ -125,8 +126,16 @@ type Cell struct {
 	Eol     int    // shape of the line ends of the ammo file: 0 = "\n" after every line, 1 = the last line has no newline, 2 = "\r\n" where the format has lines, 3 = blank lines before the first and after the last entry
 	Idle    bool   // engine: the shared schedule has no token at all (a run that shoots nothing): instances finish at once
 	Gate    int    // != 0: the Gate-th file operation waits until the context given to Provider.Run is cancelled (at most 2 s)
+	// fault plan (round 3); any combination, also together with a cancel (Cap, At):
+	CFail   int  // 1: closing the ammo file fails (kind uris: the exported Provider.Close field returns an error); 2: the exported Provider.Close field is nil (http kinds built directly)
+	RFail   int  // != 0: the RFail-th operation on the ammo file (Read / Seek) fails with an I/O error
+	RSticky bool // … and so does every later one (a device that is gone); otherwise only that one (a transient error)
+	OFail   bool // opening the ammo file fails (kinds that open it in Run: grpc/json, generic JSON; the others fail in their constructor)
 	Tick    time.Duration
 }
+
+// HasFault: the cell injects a fault.
+func (c Cell) HasFault() bool { return c.CFail != 0 || c.RFail != 0 || c.OFail }
 
 type Obs struct {
 	Construct string // "" or constructor error
@@ -143,6 +152,9 @@ type Obs struct {
 	EngErr    string // engine: nil | hang | other:<..>
 	Wait      bool   // engine: Engine.Wait returned
 	Gated     bool   // Gate != 0: the gate operation happened inside Provider.Run and was released by the cancel of Run's context
+	RHit      bool   // the injected read / seek error was returned to the provider
+	CHit      bool   // the injected close error was returned to the provider (CFail = 2: always false)
+	OHit      bool   // the injected open error was returned to the provider
 }
 
 // ---------------------------------------------------------------- counting filesystem (one global instance:
@@ -157,9 +169,26 @@ type cellIO struct {
 	gateAt   int64
 	gated    atomic.Bool                     // the gate operation happened inside Provider.Run and saw the cancel
 	runCtx   atomic.Pointer[context.Context] // the context Provider.Run was called with
+	rfailAt  int64
+	rsticky  bool
+	cfail    bool
+	ofail    bool
+	rhit     atomic.Bool
+	chit     atomic.Bool
+	ohit     atomic.Bool
 }
 
-func (c *cellIO) op() bool {
+// fails: does the n-th file operation return the injected I/O error?
+func (c *cellIO) fails(n int64) bool {
+	if c.rfailAt > 0 && (n == c.rfailAt || c.rsticky && n > c.rfailAt) {
+		c.rhit.Store(true)
+		return true
+	}
+	return false
+}
+
+// op counts one file operation: killed = the watchdog's kill switch, fail = the injected I/O error
+func (c *cellIO) op() (killed, fail bool) {
 	n := c.ops.Add(1)
 	if c.cancelAt > 0 && n == c.cancelAt && c.cancel != nil {
 		c.fired.Store(true)
@@ -174,10 +203,20 @@ func (c *cellIO) op() bool {
 			}
 		}
 	}
-	return c.killed.Load()
+	return c.killed.Load(), c.fails(n)
 }
 
 var errKilled = errors.New("verif: ammo file killed by watchdog")
+
+// the injected faults; classifyErr recognises them by their text (the providers wrap them in several ways, also
+// with formats that errors.Is does not see through)
+const faultMark = "verif: injected"
+
+var (
+	errInjRead  = errors.New(faultMark + " I/O error")
+	errInjClose = errors.New(faultMark + " close error")
+	errInjOpen  = errors.New(faultMark + " open error")
+)
 
 type countFs struct {
 	afero.Fs
@@ -208,7 +247,17 @@ func (c *countFs) wrap(name string, f afero.File) afero.File {
 	return &countFile{File: f, io: io}
 }
 
+func (c *countFs) ioOf(name string) *cellIO {
+	c.mu.Lock()
+	defer c.mu.Unlock()
+	return c.ios[name]
+}
+
 func (c *countFs) Open(name string) (afero.File, error) {
+	if io := c.ioOf(name); io != nil && io.ofail {
+		io.ohit.Store(true)
+		return nil, &os.PathError{Op: "open", Path: name, Err: errInjOpen}
+	}
 	f, err := c.Fs.Open(name)
 	if err != nil {
 		return nil, err
@@ -217,6 +266,10 @@ func (c *countFs) Open(name string) (afero.File, error) {
 }
 
 func (c *countFs) OpenFile(name string, flag int, perm os.FileMode) (afero.File, error) {
+	if io := c.ioOf(name); io != nil && io.ofail {
+		io.ohit.Store(true)
+		return nil, &os.PathError{Op: "open", Path: name, Err: errInjOpen}
+	}
 	f, err := c.Fs.OpenFile(name, flag, perm)
 	if err != nil {
 		return nil, err
@@ -233,30 +286,44 @@ type countFile struct {
 }
 
 func (f *countFile) Read(p []byte) (int, error) {
-	if f.io.op() {
+	killed, fail := f.io.op()
+	if killed {
 		return 0, errKilled
 	}
 	if f.closed.Load() {
 		return 0, os.ErrClosed
+	}
+	if fail {
+		return 0, errInjRead
 	}
 	return f.File.Read(p)
 }
 
 func (f *countFile) Seek(off int64, whence int) (int64, error) {
-	if f.io.op() {
+	killed, fail := f.io.op()
+	if killed {
 		return 0, errKilled
 	}
 	if f.closed.Load() {
 		return 0, os.ErrClosed
 	}
+	if fail {
+		return 0, errInjRead
+	}
 	return f.File.Seek(off, whence)
 }
 
+// Close: like (*os.File).Close a failing close still releases the file (a second Close reports os.ErrClosed)
 func (f *countFile) Close() error {
 	if f.closed.Swap(true) {
 		return os.ErrClosed
 	}
-	return f.File.Close()
+	err := f.File.Close()
+	if f.io.cfail {
+		f.io.chit.Store(true)
+		return errInjClose
+	}
+	return err
 }
 
 // FS is the filesystem every cell's ammo file lives in.
@@ -565,6 +632,8 @@ func classifyErr(err error) string {
 	switch {
 	case err == nil:
 		return "nil"
+	case strings.Contains(err.Error(), faultMark):
+		return "fault" // an injected fault is reported (alone or merged with the run's own error)
 	case errors.Is(err, context.Canceled):
 		return "canceled"
 	case errors.Is(err, decoders.ErrAmmoLimit):
@@ -713,10 +782,21 @@ func prepare(c Cell) (*env, string) {
 		e.io.cancel = e.cancel
 	}
 	e.io.gateAt = int64(c.Gate)
+	e.io.rfailAt, e.io.rsticky, e.io.cfail, e.io.ofail = int64(c.RFail), c.RSticky, c.CFail == 1, c.OFail
 	p, err := construct(c, e.path)
 	if err != nil {
 		e.close()
-		return nil, classifyErr(err)
+		return e, classifyErr(err)
+	}
+	// faults of the exported Close field of the http provider (what Run's deferred cleanup calls)
+	if hp, ok := p.(*httpprovider.Provider); ok {
+		switch {
+		case c.CFail == 2:
+			hp.Close = nil
+		case c.CFail == 1 && c.Kind == KURIs: // no file behind it: the field itself fails
+			io := e.io
+			hp.Close = func() error { io.chit.Store(true); return errInjClose }
+		}
 	}
 	e.p = safeProv{p, e.io}
 	return e, ""
@@ -751,14 +831,22 @@ func runOnce(c Cell) Obs {
 	if e == nil {
 		return Obs{Construct: cerr}
 	}
-	defer e.close()
-	switch c.Mode {
-	case "stall":
-		return runStall(e)
-	case "engine":
-		return runEngine(e)
+	var o Obs
+	if e.p == nil {
+		o = Obs{Construct: cerr}
+	} else {
+		defer e.close()
+		switch c.Mode {
+		case "stall":
+			o = runStall(e)
+		case "engine":
+			o = runEngine(e)
+		default:
+			o = runDrain(e)
+		}
 	}
-	return runDrain(e)
+	o.RHit, o.CHit, o.OHit = e.io.rhit.Load(), e.io.chit.Load(), e.io.ohit.Load()
+	return o
 }
 
 // runDrain: modes drain and ext.
